@@ -315,7 +315,7 @@ def qobj_corr(ctx, rng, good, n):
         a = rng.choice(good)
         da, _ = impl_dims(*a)
         op = rng.choice(["add", "sub", "matmul", "mul", "same", "swap", "swap", "swap", "pow",
-                         "proj", "add_num", "add_zero", "matmul"])
+                         "proj", "add_num", "add_zero", "matmul", "inv", "inv"])
         ea = dims_expr(*a)
         qa, arr_a = rand_qobj(rng, da)
         if op in ("add", "sub", "matmul"):
@@ -348,7 +348,12 @@ def qobj_corr(ctx, rng, good, n):
         else:
             z = rng.choice([2, -1, 1j, 0.5, 1 + 2j])
             sw = rng.random() < 0.5
+            if op == "inv" and arr_a.shape[0] == arr_a.shape[1]:
+                # make the operand safely invertible (exact small integers)
+                arr_a = arr_a + 9 * np.eye(arr_a.shape[0])
+                qa = qutip.Qobj(arr_a, dims=da).to(rng.choice(["dense", "csr", "dia"]))
             table = {
+                "inv": ("qobj_inv x", lambda qa=qa: qa.inv(), lambda a=arr_a: np.linalg.inv(a)),
                 "mul": ("qobj_same x", lambda qa=qa, z=z: qa * z, lambda a=arr_a, z=z: a * z),
                 "same": ("qobj_same x", lambda qa=qa: -qa.conj(), lambda a=arr_a: -a.conj()),
                 "swap": ("qobj_swap x",
@@ -439,6 +444,26 @@ def oracle(ctx, rng, n):
                               {"dims_a": qa.dims, "dims_b": qb.dims})
             except (ValueError, TypeError):
                 pass
+        # inverse: labels exchanged, composes with the operand on both sides
+        if a.shape[0] == a.shape[1] and a.shape[0] > 1:
+            ai = a + 7 * np.eye(a.shape[0])
+            qi = Qobj(ai, dims=da).to(rng.choice(["csr", "dense", "dia"]))
+            try:
+                inv = qi.inv()
+                if inv.dims != [qi.dims[1], qi.dims[0]]:
+                    ctx.violation("qobj.inv", "dims-not-exchanged",
+                                  "Qobj.inv of dims %s has dims %s" % (qi.dims, inv.dims),
+                                  {"dims": qi.dims, "result_dims": inv.dims})
+                else:
+                    left, right = inv @ qi, qi @ inv
+                    for pr, name in ((left, "inv@A"), (right, "A@inv")):
+                        if not np.allclose(pr.full(), np.eye(a.shape[0]), atol=1e-9):
+                            ctx.violation("qobj.inv", "not-inverse", "%s is not the identity" % name,
+                                          {"dims": qi.dims, "a": np.array2string(ai)})
+            except (TypeError, ValueError) as e:
+                ctx.violation("qobj.inv", "inverse-does-not-compose",
+                              "Qobj.inv of a square matrix with dims %s raised or does not compose: %s" % (qi.dims, e),
+                              {"dims": qi.dims})
         # a depth-3 tree on compatible operands
         try:
             qc = Qobj(b.reshape(b.shape) if False else np.array(a) * 0 + 1j, dims=da)
